@@ -3,6 +3,7 @@ package main
 import (
 	"encoding/json"
 	"fmt"
+	"strings"
 
 	"verif/internal/prng"
 	"verif/internal/sim"
@@ -128,6 +129,15 @@ func recipientIDs(act M) []string {
 
 // ---- generator ----
 
+// inboxOfActor derives the inbox IRI of a generated actor id, keeping a query
+// at the end.
+func inboxOfActor(id string) string {
+	if i := strings.Index(id, "?"); i >= 0 {
+		return id[:i] + "/inbox" + id[i:]
+	}
+	return id + "/inbox"
+}
+
 func genDeliveryScenario(g *prng.R) (*sim.Scenario, M) {
 	sc := baseScenario()
 	sc.Cfg.MaxDelivery = g.Range(1, 4)
@@ -136,6 +146,29 @@ func genDeliveryScenario(g *prng.R) (*sim.Scenario, M) {
 	for i := 0; i < nActors; i++ {
 		host := pick(g, R1, R2, "https://third.example")
 		id := fmt.Sprintf("%s/users/u%d", host, i)
+		if i > 0 && g.Chance(1, 6) {
+			// a near-twin of an earlier actor: another actor, another inbox,
+			// differing from it only in the case of a path letter, in a query
+			// or in a trailing slash
+			twin := actors[g.Intn(len(actors))]
+			switch g.Intn(3) {
+			case 0:
+				id = strings.Replace(twin, "/users/u", "/users/U", 1)
+			case 1:
+				id = twin + "?v=2"
+			default:
+				id = strings.Replace(twin, "/users/", "/Users/", 1)
+			}
+			dup := false
+			for _, a := range actors {
+				if a == id {
+					dup = true
+				}
+			}
+			if dup || strings.Contains(twin, "?") || strings.Contains(twin, "/U") {
+				id = fmt.Sprintf("%s/users/u%d", host, i)
+			}
+		}
 		actors = append(actors, id)
 		switch g.Intn(10) {
 		case 0:
@@ -147,9 +180,9 @@ func genDeliveryScenario(g *prng.R) (*sim.Scenario, M) {
 		case 3:
 			// not registered at all: 404
 		default:
-			inbox := id + "/inbox"
+			inbox := inboxOfActor(id)
 			if g.Chance(1, 5) && i > 0 {
-				inbox = actors[0] + "/inbox" // shared inbox => duplicates
+				inbox = inboxOfActor(actors[0]) // shared inbox => duplicates
 			}
 			sc.Remote[id] = sim.RemoteSpec{Doc: M{"@context": AS, "type": pick(g, "Person", "Service", "Group"), "id": id, "inbox": inbox}}
 		}
